@@ -20,7 +20,12 @@ pub struct C10;
 
 #[derive(Serialize, Deserialize, Clone, Debug, PartialEq)]
 pub enum Op {
-    Learn { epochs: i32, with_val: bool },
+    Learn {
+        epochs: i32,
+        with_val: bool,
+        #[serde(default)]
+        print: Option<i32>,
+    },
     Validate,
     Predict,
 }
@@ -85,9 +90,9 @@ fn execute(case: &Case, ctx: &mut Ctx) -> Vec<Snapshot> {
     for op in &case.ops {
         ctx.op();
         match op {
-            Op::Learn { epochs, with_val } => {
+            Op::Learn { epochs, with_val, print } => {
                 let validation = if *with_val { Some((&vxr, &vyr, 2)) } else { None };
-                let _ = net.learn(&xr, &yr, validation, case.batch, *epochs, None);
+                let _ = net.learn(&xr, &yr, validation, case.batch, *epochs, *print);
             }
             Op::Validate => {
                 let _ = net.validate(&vxr, &vyr, 1e-3);
@@ -185,7 +190,11 @@ impl Property for C10 {
         let mut ops = Vec::new();
         let learns = rng.range(1, 3);
         for i in 0..learns {
-            ops.push(Op::Learn { epochs: rng.range(1, 3) as i32, with_val: rng.chance(0.3) });
+            ops.push(Op::Learn {
+                epochs: rng.range(1, 3) as i32,
+                with_val: rng.chance(0.3),
+                print: if rng.chance(0.25) { Some(rng.pick(&[1i32, 2, 5])) } else { None },
+            });
             if i + 1 < learns || rng.chance(0.3) {
                 match rng.below(3) {
                     0 => ops.push(Op::Validate),
@@ -330,15 +339,20 @@ impl Property for C10 {
             }
         }
         for (i, op) in case.ops.iter().enumerate() {
-            if let Op::Learn { epochs, with_val } = op {
+            if let Op::Learn { epochs, with_val, print } = op {
                 if *epochs > 1 {
                     let mut c = lenient(case);
-                    c.ops[i] = Op::Learn { epochs: 1, with_val: *with_val };
+                    c.ops[i] = Op::Learn { epochs: 1, with_val: *with_val, print: *print };
                     out.push(c);
                 }
                 if *with_val {
                     let mut c = lenient(case);
-                    c.ops[i] = Op::Learn { epochs: *epochs, with_val: false };
+                    c.ops[i] = Op::Learn { epochs: *epochs, with_val: false, print: *print };
+                    out.push(c);
+                }
+                if print.is_some() {
+                    let mut c = lenient(case);
+                    c.ops[i] = Op::Learn { epochs: *epochs, with_val: *with_val, print: None };
                     out.push(c);
                 }
             }
